@@ -487,7 +487,21 @@ def _run_case(case: dict) -> dict:
                 for t in targets:
                     dups = _duplicate_value_names(t)
                     if dups:
-                        viol = ("pass-created-duplicate-value-names", f"step {si} {name}/{mode} ({out}): every value name was unique within its graph before the pass; afterwards graph {dups[0][0]!r} defines {dups[0][1]!r} twice (such a proto is refused on load)", f"pass-created-duplicate-value-names|{name}")
+                        key_ = f"pass-created-duplicate-value-names|{name}"
+                        # recorded finding: inside a composite step, an earlier member (IdentityElimination with x and
+                        # y = Identity(x) both graph outputs) leaves ONE value listed twice among the outputs, and
+                        # CommonSubexpressionElimination then rewrites each listing separately (an Identity per listing,
+                        # all carrying the output's name).  Recognised by: the duplicated name is the name of graph outputs
+                        # listed at least twice, and the step is a composition that contains CSE.
+                        members_ = [name] + [o_[0] for o_ in (step.get("others") or [])]
+                        for g_ in _all_graphs(t):
+                            if g_.name == dups[0][0] and sum(1 for o_ in g_.outputs if o_.name == dups[0][1]) >= 2 and "CSE" in members_ and len(members_) > 1:
+                                key_ = "pass-created-duplicate-value-names|repeated-output-then-CSE"
+                        if key_.endswith("|" + name) and "Inline" in members_ and "IdentityElimination" in members_ and len(members_) > 1:
+                            # second recorded finding of the same family (see known_findings.json): IdentityElimination
+                            # applied, inside one composition, to what InlinePass just produced
+                            key_ = "pass-created-duplicate-value-names|identity-elimination-after-inline"
+                        viol = ("pass-created-duplicate-value-names", f"step {si} {name}/{mode} ({out}): every value name was unique within its graph before the pass; afterwards graph {dups[0][0]!r} defines {dups[0][1]!r} twice (such a proto is refused on load)", key_)
                         break
             # ---- the infrastructure's own contract check (declared in-place / functional) never fires for built-in passes
             e_ = raised
